@@ -8,6 +8,8 @@ open Threadq_model
 
 let nat_of_int n = let rec go acc k = if k <= 0 then acc else go (S acc) (k-1) in go O n
 let int_of_nat n = let rec go acc = function O -> acc | S m -> go (acc+1) m in go 0 n
+let rec int_of_pos = function XH -> 1 | XO p -> 2 * int_of_pos p | XI p -> 2 * int_of_pos p + 1
+let int_of_n = function N0 -> 0 | Npos p -> int_of_pos p
 
 type case = { sockets : bool; evd : bool; fine : bool; free : bool; n : int; seed : int64 option; sched : (int * bool) list; prog : op list array }
 
@@ -86,7 +88,7 @@ let chan_text = function CI -> "i" | CO -> "o"
 let b01 b = if b then "1" else "0"
 
 let dump (g : gst) =
-  let c x = Printf.sprintf "%s/%d/%d" (String.concat "," (List.map msg_text x.c_q)) (int_of_nat x.c_sig) (int_of_nat x.c_wc) in
+  let c x = Printf.sprintf "%s/%d/%d" (String.concat "," (List.map msg_text x.c_q)) (int_of_nat x.c_sig) (int_of_n x.c_wc) in
   Printf.sprintf "{a%sr%so%s|%s|%s}" (b01 g.g_alloc) (b01 g.g_running) (b01 g.g_iopen) (c g.g_ci) (c g.g_co)
 
 let res_text = function
@@ -113,7 +115,7 @@ let run_case k (c : case) =
   let buf = Buffer.create 1024 in
   let decisions = ref 0 in
   let status = ref "" in
-  let stepf = sys_step false absorb_const react in      (* false: StartInternalThread as it is now (not the as-found order) *)
+  let stepf = sys_step false absorb_const no_limit_const react in      (* false: StartInternalThread as it is now (not the as-found order) *)
   let show (s' : sys) (e : ev) =
     match e with
     | EDump -> Buffer.add_string buf (dump s'.s_g)
